@@ -251,9 +251,10 @@ func (s EnvSpace) String() string {
 // EnvSpaces is the bound used by the C16/C17 checks. Quick: 1-2 recipient
 // keys, 1-3 grants (lists of 3 grants without the share count 0, which is an
 // alias of 1). Thorough: 1-3 keys, 1-4 grants; lists of 4 grants for 2 and 3
-// keys are symmetry-reduced (sorted), for 3 keys also without share count 0.
+// keys are symmetry-reduced (sorted); for 3 keys lists of 3 grants omit the
+// share count 0 and lists of 4 grants use share count 1 only.
 func EnvSpaces(quick bool) []EnvSpace {
-	all, no0 := []uint32{0, 1, 2}, []uint32{1, 2}
+	all, no0, only1 := []uint32{0, 1, 2}, []uint32{1, 2}, []uint32{1}
 	if quick {
 		return []EnvSpace{
 			{1, 1, all, false}, {1, 2, all, false}, {1, 3, no0, false},
@@ -263,7 +264,7 @@ func EnvSpaces(quick bool) []EnvSpace {
 	return []EnvSpace{
 		{1, 1, all, false}, {1, 2, all, false}, {1, 3, all, false}, {1, 4, all, false},
 		{2, 1, all, false}, {2, 2, all, false}, {2, 3, all, false}, {2, 4, all, true},
-		{3, 1, all, false}, {3, 2, all, false}, {3, 3, all, false}, {3, 4, no0, true},
+		{3, 1, all, false}, {3, 2, all, false}, {3, 3, no0, false}, {3, 4, only1, true},
 	}
 }
 
